@@ -82,10 +82,6 @@ where
         match transport.send_vote_requests(request, &settings.retry, membership).await {
             Ok(vote_result) => {
                 let mut succeed = 1;
-                // A voter whose log is more recent refuses its vote; that decides nothing as
-                // long as a majority grants (entries beyond what a majority holds are not
-                // committed). Remembered only to explain a lost round.
-                let mut more_recent_log: Option<ElectionError> = None;
                 for response in vote_result.responses {
                     match response {
                         Ok(vote_response) => {
@@ -112,12 +108,12 @@ where
                                 ) {
                                     warn!("More update to date log found in vote response");
 
-                                    more_recent_log.get_or_insert(ElectionError::LogConflict {
+                                    return Err(ElectionError::LogConflict {
                                         index: last_log_index,
                                         expected_term: last_log_term,
                                         actual_term: vote_response.last_log_term,
-                                    });
-                                    continue;
+                                    }
+                                    .into());
                                 }
 
                                 warn!("send_vote_requests_to_peers failed!");
@@ -137,9 +133,6 @@ where
                 if !vote_result.peer_ids.is_empty() && is_majority(succeed, required) {
                     debug!("send_vote_requests receives majority.");
                     return Ok(());
-                } else if let Some(log_conflict) = more_recent_log {
-                    debug!("failed to receive majority votes: a voter holds a more recent log.");
-                    return Err(log_conflict.into());
                 } else {
                     debug!("failed to receive majority votes.");
                     return Err(ElectionError::QuorumFailure { required, succeed }.into());
